@@ -3,7 +3,7 @@ from .. import obs as O
 from .common import (Contract, ansi_values, history, run_cases, tier_sizes, safe_obs, is_ansi, is_plain_str,
                      render_failures, GROUP_CODES, small_scope_values, small_scope_on)
 
-PROP = 'C05'
+PROP = "C05"
 RULE = ('case = one a + b, a += b or join(x1..xn) on reachable operands (AnsiString/AnsiStr/str; equal, '
         'prefix-equal, reordered, different, nested settings at the seam; operands produced by padding, '
         'out-of-range apply, slicing, remove; an operand with itself), each result character compared '
